@@ -13,5 +13,5 @@ CONSTANTS
   Debris <- MCDebris
 VIEW View
 INVARIANTS InvDirValid InvDebris InvHandle InvNoErr InvNonBlocking
-PROPERTIES StepImmutable StepReadOnlyFirst StepRemoval
+PROPERTIES StepImmutable StepReadOnlyFirst StepRemoval StepRegister StepGetLin
 CHECK_DEADLOCK FALSE
